@@ -314,9 +314,7 @@ class IntroVisitor(ast.NodeVisitor):
         function_body_hash = dds_hash(self._body_lines[:last_line])
         # The list of all the previous interactions.
         # This enforces the concept that the current call depends on previous calls.
-        function_inters_sig: Optional[PyHash] = dds_hash_commut(
-            _fis_to_siglist(self.inters)
-        )
+        function_inters_sig: Optional[PyHash] = self._previous_interactions_sig()
         # Check the call for dds calls or sub_calls.
         fi_or_p = InspectFunction.inspect_call(
             node,
@@ -372,9 +370,7 @@ class IntroVisitor(ast.NodeVisitor):
                 function_body_hash = dds_hash(self._body_lines[: node.lineno + 1])
                 # The list of all the previous interactions.
                 # This enforces the concept that the current call depends on previous calls.
-                function_inters_sig: Optional[PyHash] = dds_hash_commut(
-                    _fis_to_siglist(self.inters)
-                )
+                function_inters_sig: Optional[PyHash] = self._previous_interactions_sig()
                 # Check the call for dds calls or sub_calls.
                 fi_or_p = InspectFunction.inspect_call(
                     call_node,
@@ -393,6 +389,18 @@ class IntroVisitor(ast.NodeVisitor):
                     self.load_paths.append(fi_or_p)
 
         self.generic_visit(node)
+
+    def _previous_interactions_sig(self) -> Optional[PyHash]:
+        """
+        The signature of what the function did before the current call: the calls it made, and the paths it
+        loaded (a value read with dds.load may be handed to the next call as an argument).
+        """
+        loads = [
+            (HK(f"load_dep_{idx}"), self._gctx.resolved_references[p])
+            for (idx, p) in enumerate(self.load_paths)
+            if p in self._gctx.resolved_references
+        ]
+        return dds_hash_commut(_fis_to_siglist(self.inters) + loads)
 
     @staticmethod
     def _get_call_name(node: ast.expr) -> Optional[LocalVar]:
